@@ -123,7 +123,46 @@ def run(facts, rep, tier):
                     rep.ob("C05.T3", "tryfrom-str-is-parse:%s/%s/%s" % (kind, arm_name(t) or gtext(t.conds())[:40], im["trait"].split("<")[1].rstrip(">")), bt == "value.parse()", "body `%s`" % bt, t.sp)
     rep.floor("C05.T3", "TryFrom<string-like> impls", n_tf, 12)
 
-    # T4
+    # T4: which of the stated bounds get a check
+    def adaptors(text, start):
+        """[(method, argument text)] of the call chain that starts at text[start] == '.'"""
+        out = []
+        i_ = start
+        while i_ < len(text) and text[i_] == ".":
+            m_ = re.match(r"\.(\w+)\(", text[i_:])
+            if not m_:
+                break
+            k_ = i_ + m_.end()
+            depth = 1
+            while k_ < len(text) and depth:
+                depth += text[k_] == "("
+                depth -= text[k_] == ")"
+                k_ += 1
+            out.append((m_.group(1), text[i_ + m_.end():k_ - 1]))
+            i_ = k_
+        return out
+    nt = ems.get("newtype")
+    if nt is not None:
+        for name, cs in sorted(nt.hole_canon().items()):
+            mm = re.match(r"^\S*String\.(max|min)_length\b", cs)
+            if not (mm and "quote!" in cs):
+                continue
+            which = mm.group(1)
+            chain = adaptors(cs, mm.end())
+            upto = []
+            for meth, arg in chain:
+                if meth == "map" and arg.startswith("|..| quote!"):
+                    break
+                upto.append((meth, arg))
+            bad = []
+            for ix, (meth, arg) in enumerate(upto):
+                if meth == "map" and re.fullmatch(r"\|\.\.\| elem<.*>", arg):
+                    continue  # a cast
+                if which == "min" and ix == 0 and meth == "filter" and re.fullmatch(r"\|\.\.\| \(elem<.*> (Gt|Ne) 0\)", arg):
+                    continue  # minLength 0 is vacuous
+                bad.append("%s(%s)" % (meth, arg[:60]))
+            rep.ob("C05.T4", "bound-source:%s" % which, not bad, "every stated %sLength gets a check%s" % (which, " (only the vacuous minLength 0 is skipped)" if which == "min" else "") if not bad else
+                   "the %sLength check is emitted only after `.%s`: a stated bound is dropped before the check is generated, so strings that violate it are accepted" % (which, bad[0]))
     for arm in constrained:
         if "String" not in arm:
             continue
